@@ -108,14 +108,18 @@ def check(repo, rep):
                     kinds['start'] = True
                 if any(x == ('attr', ('p', 'index'), 'stop') for x in walk(tgt)):
                     kinds['stop'] = True
+        aggregated = any(any(x[0] == 'call' and x[1][0] == 'b' and x[1][1] in ('any', 'all') for x in walk(l.conds[-1][0])) for l in raising if l.conds)
         for k, lab in (('notslice', 'a non-slice index'), ('step', 'a slice with a step'), ('start', 'a start bound of the wrong type'), ('stop', 'a stop bound of the wrong type')):
+            if not kinds[k] and k in ('start', 'stop') and aggregated:
+                rep.unknown('%s: the type test of the bounds is aggregated with any()/all(): not analysed per bound' % cn)
+                continue
             rep.ob('index validation rejects %s' % lab, kinds[k], W(cfn), '%s:missing-%s-check' % (cn, k))
         for l in cl:
             if l.outcome != 'return':
                 continue
             v = l.value
             ok = v[0] == 'tuple' and len(v[1]) == 2 and v[1][1] == ('attr', ('p', 'index'), 'stop') and \
-                (v[1][0] == ('ite', ('cmp', 'is not', ('attr', ('p', 'index'), 'start'), ('c', None)), ('attr', ('p', 'index'), 'start'), ('c', 0)) or v[1][0] == ('attr', ('p', 'index'), 'start'))
+                (v[1][0] == ('ite', ('cmp', 'is', ('attr', ('p', 'index'), 'start'), ('c', None)), ('c', 0), ('attr', ('p', 'index'), 'start')) or v[1][0] == ('attr', ('p', 'index'), 'start'))
             rep.ob('index validation returns (start or 0, stop) unchanged', ok, W(l.node), '%s:result' % cn, 'returns %s' % show(v)[:120])
             # accepted only after the checks passed
             passed = any(c[0][0] == 'call' and c[0][1] == ('b', 'isinstance') and c[0][2][1] == ('b', 'slice') and c[1] for c in l.conds) and \
